@@ -157,6 +157,11 @@ def run(ctx):
     ctx.scope.update({"mc": dict(scope), "exponents": "-400..400 (quick GEN: -120..120 dense classes, +-400 in the random driver)"})
     c1 = fw.write_cfg(ctx.path("MC_ConvertBase.cfg"), invariants=["Conforms", "OneBranch"], constants=scope)
     ctx.mc("mc-convertbase", "C08", "ConvertBaseAlg.tla", c1, workers=4, timeout=2400)
+    # the digit-count / exponent arithmetic of the parser with isize scaled down to 4 (5) bits: every scale x digit layout
+    for b, imax in ((2, 7), (10, 7)) + (() if ctx.quick else ((2, 15), (10, 12))):
+        fcfg = fw.write_cfg(ctx.path("MC_FloatParseAlg_b%d_%d.cfg" % (b, imax)), invariants=["ParseOK"],
+                            constants={"B": b, "IMax": imax, "MaxInt": 2, "MaxFrac": 3})
+        ctx.mc("mc-floatparse-b%d-i%d" % (b, imax), "C08", "FloatParseAlg.tla", fcfg, workers=4)
     # vacuity: every branch is taken (coverage run without the definition: TLC's -coverage start-up does not
     # terminate on the BigNat-heavy invariant)
     c2 = fw.write_cfg(ctx.path("MC_ConvertBaseCover.cfg"), invariants=["OneBranch"], constants=dict(scope, MaxSig=5))
